@@ -152,7 +152,9 @@ def one_sequence(run, drv, rng, nops):
         existing = list(tdp._param_td.keys(True, True))
         op = rng.choice(["set", "set", "setitem", "update", "update", "update_inplace", "update_inplace", "update_td", "del", "pop", "rename",
                          "lock", "unlock", "apply_", "zero_", "create_nested", "update_clone", "to_double", "select_inplace", "exclude_inplace",
-                         "load_state_dict", "deepcopy", "clone"])
+                         "load_state_dict", "deepcopy", "clone",
+                         "popitem", "setdefault", "set_", "update_", "fill_", "flatten_inplace", "replace", "set_node", "del_node", "rename_node",
+                         "requires_grad_", "to_half_and_back"])
         desc = op
         try:
             with time_limit(60):
@@ -212,6 +214,60 @@ def one_sequence(run, drv, rng, nops):
                 elif op == "clone":
                     holder = Holder(tdp.clone())
                     tdp = holder.params
+                elif op == "popitem" and existing:
+                    tdp.popitem()
+                elif op == "setdefault":
+                    k = rand_key(rng, existing)
+                    desc = f"setdefault({k})"
+                    tdp.setdefault(k, rand_tensor(rng)[0])
+                elif op in ("set_", "update_", "fill_") and existing:
+                    k = rng.choice(existing)
+                    desc = f"{op}({k})"
+                    cur = tdp._param_td.get(k)
+                    with torch.no_grad():
+                        if op == "set_":
+                            tdp.set_(k, torch.ones_like(cur))
+                        elif op == "update_":
+                            pl = TensorDict({}, batch_size=[])
+                            pl.set(k, torch.ones_like(cur))
+                            tdp.update_(pl)
+                        else:
+                            tdp.fill_(k, 3)
+                elif op == "flatten_inplace":
+                    tdp.flatten_keys("_", inplace=True)
+                elif op == "replace" and existing:
+                    k = rng.choice(existing)
+                    desc = f"replace({k})"
+                    pl = TensorDict({}, batch_size=[])
+                    pl.set(k, rand_tensor(rng)[0])
+                    holder = Holder(tdp.replace(pl))
+                    tdp = holder.params
+                elif op == "set_node":
+                    k = rng.choice(NESTS + ["q"])
+                    desc = f"set_node({k})"
+                    sub = TensorDict({}, batch_size=[])
+                    for _ in range(rng.randint(0, 2)):
+                        sub.set(rng.choice(NAMES), rand_tensor(rng)[0])
+                    if rng.random() < 0.5:
+                        tdp[k] = sub
+                    else:
+                        tdp.set(k, sub)
+                elif op in ("del_node", "rename_node"):
+                    nodes = [k for k in tdp._param_td.keys(True, False) if k not in set(tdp._param_td.keys(True, True))]
+                    if nodes:
+                        k = rng.choice(nodes)
+                        desc = f"{op}({k})"
+                        if op == "del_node":
+                            tdp.del_(k)
+                        else:
+                            tdp.rename_key_(k, rng.choice(NESTS + ["q", "r"]))
+                elif op == "requires_grad_":
+                    flag = rng.random() < 0.5
+                    desc = f"requires_grad_({flag})"
+                    holder.requires_grad_(flag)
+                elif op == "to_half_and_back":
+                    holder.half()
+                    holder.float()
                 elif op == "select_inplace" and existing:
                     ks = [k for k in existing if rng.random() < 0.6]
                     desc = f"select_inplace({ks})"
